@@ -29,8 +29,9 @@ PARTIAL = ["C05_program is for runs inside PyFragment (Spec/PyProg.lean, table I
            "secretLiteral, guardRegion (code under a false guard is inert: C07), ignoreErrors, selectLists (selection between lists under a "
            "secret condition zips/truncates), secretIndexElems (secret-index access composed for int / secret-int elements only), and the "
            "recorded deviations invertSecretInt (C05-invert), boolPow (C05-bool-pow), boolBitwiseConst (C05-bool-bitwise-const), "
-           "secretExponentWraps (C05-secret-exponent-mod-p: exactly when x**e, for shifts 2**e, is outside [0,p): C05_powWraps_exact), "
-           "rshiftNegative (C05-rshift-negative)",
+           "secretExponentWraps (C05-secret-exponent-mod-p: exactly when x**e, for shifts 2**e, is outside [0,p): C05_powWraps_exact); "
+           "x >> n with a negative public n is inside the fragment since the repair of C05-rshift-negative (it raises, as Python does: "
+           "C05_rshift_negative_raises)",
            "C05_program_total additionally needs PySupported (table Instr.pyGap): kinds (API raises by type dispatch / both operands plain), "
            "and NOT YET COMPOSED: secretExponent (secret exponent / shift count), secretIndex (secret-index array access), assertion "
            "(assert* methods: C03); and InDomain (exact bounds pyDomBin/pyDomCall; negative divisors of //, %, divmod are outside: "
